@@ -39,6 +39,16 @@ def gen_session(r, tier):
     times = [0.0]
     for _ in range(T - 1):
         times.append(round(times[-1] + r.choice([1.0, 1.0, 0.5, 2.5, r.uniform(0.2, 3.0)]), 3))
+    # degenerate but legal series: a repeated time stamp (frames built without time=) and / or
+    # vertices that do not move at all: velocities become x/0 or 0/0, which the library answers with
+    # FloatingPointError - on every thread, if its error-state handling is right
+    if T > 1 and r.random() < 0.08:
+        k = r.randrange(1, T)
+        times[k] = times[k - 1]
+        if r.random() < 0.5:
+            times = [0.0] * T
+    if T > 1 and r.random() < 0.08:
+        spec["motion"] = {"amp": 0.0, "drift": [0.0, 0.0], "stretch": 0.0}
     return {"spec": spec, "frames": T, "times": times, "path": r.choice(["direct", "direct", "se"]),
             "cm": r.random() < 0.15, "gt": True}
 
